@@ -59,7 +59,7 @@
     P(C15_received_alert_kills_session,        IMPLIES(RET == SSL_ALERT, (g_ssl.flags & (SSL_FLAGS_ERROR | SSL_FLAGS_CLOSED)) != 0)) \
     P(C15_received_fatal_alert_sets_error,     IMPLIES(RET == SSL_ALERT && g_alertDesc != SSL_ALERT_CLOSE_NOTIFY, (g_ssl.flags & SSL_FLAGS_ERROR) != 0)) \
     P(C15_error_and_closed_are_sticky,         (g_ssl.flags & (SSL_FLAGS_ERROR | SSL_FLAGS_CLOSED) & gh_flags_at_entry) == ((SSL_FLAGS_ERROR | SSL_FLAGS_CLOSED) & gh_flags_at_entry) || gh_hs_calls > 0) \
-    P(C15_internal_error_is_reported,          IMPLIES(RET < 0 && RET > -50, g_error == MATRIXSSL_ERROR || RET == MATRIXSSL_ERROR || RET == PS_FAILURE)) \
+    P(C15_internal_error_is_reported,          IMPLIES(RET < 0 && RET > -50, g_error < 0 || RET == PS_FAILURE)) \
     P(C18_partial_leaves_cursor_and_length,    IMPLIES(RET == SSL_PARTIAL, g_inp == g_buf && g_len == g_in.len && g_remaining == g_in.len)) \
     P(C18_partial_leaves_session_state,        IMPLIES(RET == SSL_PARTIAL, g_ssl.flags == gh_flags_at_entry && g_ssl.hsState == gh_hsstate_at_entry && g_ssl.err == SSL_ALERT_NONE && g_ssl.outlen == g_in.outlen && gh_dec_calls == 0 && gh_hs_calls == 0 && gh_alert_encoded == 0)) \
     P(C18_partial_asks_for_more_than_present,  IMPLIES(RET == SSL_PARTIAL, g_reqLen > g_in.len || g_reqLen == TLS_REC_HDR_LEN)) \
